@@ -45,6 +45,7 @@ def run(ck):
     ck.rule("R", "raw-pointer-to-&mut sites in parallel code are exactly the known, reviewed ones")
     ck.rule("P", "rayon::current_num_threads() is only consumed through next_power_of_two() / serial-path thresholds")
     ck.rule("S", "functions of `concurrent` modules have serial siblings with the same signature")
+    ck.rule("F", "a fragment-local row index never addresses the global domain: what is handed to anything but the fragment itself is offset by fragment.offset()")
 
     users = defaultdict(set)
     n_rayon = 0
@@ -130,6 +131,7 @@ def run(ck):
         ck.ob("S", f"sibling:{f.nname}", ok,
               f"{f.nname} has a serial sibling with the same signature ({cands[0].nname if cands else 'none found'})", loc=f.loc())
     ck.floor("concurrent functions with a serial sibling", n_sib, 4)
+    fragment_rule(ck, prog)
     ck.control("`for_each` is not classified as scheduling-dependent", "for_each" not in NONDET)
 
 
@@ -168,3 +170,40 @@ def uses_not_via_npot(f, l):
                     continue
                 bad.append(f"argument of {cn.split('::')[-1]} at {f.loc(b, 'T')}")
     return bad
+
+
+def fragment_rule(ck, prog):
+    """The constraint evaluation table is split into fragments that are evaluated in parallel; inside a fragment, row `i` of the fragment
+    is row `i + fragment.offset()` of the domain. With one fragment (the serial build, and every test) the two coincide."""
+    from ..flow import flow
+    FRAG = "winter_prover::constraints::evaluation_table::EvaluationTableFragment"
+    fns = [f for f in prog.fns.values() if f.crate == "winter_prover" and f.kind != "closure" and f.get("impl_self_adt") != FRAG
+           and any(FRAG in (ty or "") for ty in (f.get("inputs") or []))]
+    n = 0
+    for f in fns:
+        g = flow(f)
+        uses_rows = any((callee_name(t) or "").endswith("EvaluationTableFragment::num_rows") for b, t in f.calls())
+        if not uses_rows:
+            continue
+        ck.saw(f)
+        for b, t in f.calls():
+            cn = callee_name(t) or ""
+            fr = t.get("fn") or {}
+            if cn.startswith(("core::", "alloc::", "std::")) or fr.get("impl_self_adt") == FRAG or cn.endswith(("EvaluationTableFragment::update_row",
+                                                                                                          "EvaluationTableFragment::update_transition_evaluations")):
+                continue
+            for k, a in enumerate(t["args"]):
+                l = op_local(a)
+                if l is None or f.local_ty(l) != "usize":
+                    continue
+                w = g.walk(ops=[a], at=(b, "T"))
+                names = g.callee_names_in(w)
+                local_idx = any(x.endswith("EvaluationTableFragment::num_rows") for x in names)
+                if not local_idx:
+                    continue
+                n += 1
+                ok = any(x.endswith("EvaluationTableFragment::offset") for x in names)
+                ck.ob("F", f"{f.nname.split('::')[-1]}:{cn.split('::')[-1]}:arg{k}", ok,
+                      f"{f.nname.split('::')[-1]}: the row position handed to {cn.split('::')[-1]} is the fragment-local index plus fragment.offset()",
+                      loc=f.loc(b, "T"))
+    ck.floor("global positions derived from fragment rows", n, 8)
